@@ -64,7 +64,7 @@ INVENTORY = [
     ("utils/src/parse.rs query + Query::insert/index_of/iterate_to_*", "query.get(..) x4; value_start.saturating_sub(1); "
      "self.pairs[index..]; self.pairs[..index]; index -= 1; Vec::insert(pos, ..); binary_search_by", "Model/Panics.v query; query_never_panics"),
     ("utils/src/parse.rs QueryPairIter", "self.pos.unwrap(); self.back_pos.unwrap(); *back_pos -= 1; pairs[..usize::MAX]",
-     "Model/Panics.v qi_next/qi_next_back (repaired code), qi_next_back_v0; query_iter_never_panics, query_get_last_v0_refuted; FIXED 14150b4"),
+     "Model/Panics.v qi_next/qi_next_back (repaired code), qi_next_back_v0; query_iter_never_panics, query_get_last_v0_refuted; FIXED 55bc7f7"),
     ("utils/src/parse.rs CacheControl::from_kvarn_cache_control", "&header[..len - 1]; integer * multiplier (u32)",
      "Model/CacheControl.v (C04). NOT client input: read from the RESPONSE headers of a handler / upstream; in a build with overflow "
      "checks '4294967295d' panics (kept in the model as the checked branch, outside request_path)"),
@@ -551,7 +551,7 @@ ASSUMPTIONS = [
     "(the model's seek fails exactly beyond i64::MAX)",
 ]
 TRUSTED = ["modelled here (Model/Panics.v): utils/src/parse.rs query, Query::{insert,index_of,iterate_to_first,iterate_to_last}, QueryPairIter "
-           "(repaired code, commit 14150b4), src/comprash.rs PathQuery, src/extensions.rs stream_body (window arithmetic)",
+           "(repaired code, commit 55bc7f7), src/comprash.rs PathQuery, src/extensions.rs stream_body (window arithmetic)",
            "borrowed models (tied by their own properties and re-run here): Http1Read.v, Range.v, RangeConn.v, PathSan.v, Negotiate.v, Cors.v, Hosts.v, "
            "PresentLine.v, Limiter.v, Nonce.v",
            "harness/src/c02.rs, c02conn.rs (loopback client, counting panic hook), c07.rs (scripted reader), c09.rs, c06.rs, c13.rs, c15.rs, c01.rs, c16.rs",
